@@ -272,6 +272,9 @@ def return_func(res, inp):
             v if isinstance(v, XlError) or v is 1.0 else v[0][0]
             for v in res.ravel()
         ], dtype=object).reshape(shape).view(Array)
+    v = res.ravel()[0]
+    if isinstance(v, np.ndarray):  # The unit matrix itself.
+        return v.astype(object).view(Array)
     return res
 
 
